@@ -1231,3 +1231,149 @@ Proof.
   { intros H. destruct (P6 H) as (r & Fr & Er). rewrite (Hfbv r Fr) in Er. exact Er. }
   { intros H. destruct (P7 H) as (r & Fr & Er). rewrite (Hfbv r Fr) in Er. exact Er. }
 Qed.
+
+Lemma aff_apply_compat m x y x' y' : x == x' -> y == y' ->
+  fst (aff_apply m x y) == fst (aff_apply m x' y') /\ snd (aff_apply m x y) == snd (aff_apply m x' y').
+Proof. intros Hx Hy; unfold aff_apply; simpl; rewrite Hx, Hy; split; reflexivity. Qed.
+
+(** rotated / sheared GeoBox: pixel-space labels and the encoded transform *)
+Lemma history_rotated tol g nt nb nd name user h x0 x iy ix :
+  is_affine_st tol (g_aff g) = false -> 0 <= g_ny g -> 0 <= g_nx g ->
+  let t := g_aff g in
+  let yd := fst (crs_dims (g_crs g)) in
+  let xd := snd (crs_dims (g_crs g)) in
+  let c := match name with Some _ => g_crs g | None => None end in
+  name_ok name yd xd -> clean_attrs user ->
+  wrap_xr tol (ABox g) nt nb nd name user = Ok x0 ->
+  run_history x0 h = Ok x ->
+  axis_idx yd (iota (g_ny g)) h = Ok iy -> axis_idx xd (iota (g_nx g)) h = Ok ix ->
+  1 <= zlen iy -> 1 <= zlen ix ->
+  exists T,
+    locate_geo_info repaired tol x =
+      Ok (GeoState (Some (yd, xd)) c (Some (aff_mul t T)) (Some (ABox (GBox (zlen iy) (zlen ix) (aff_mul t T) c)))) /\
+    fb T == 0 /\ fd T == 0 /\
+    (exists cy cx, lookup yd (x_coords x) = Some cy /\ lookup xd (x_coords x) = Some cx /\
+                   co_vals cy = map pix_label iy /\ co_vals cx = map pix_label ix /\ co_tr cx = Some t) /\
+    (forall j k, 0 <= j < zlen iy -> 0 <= k < zlen ix ->
+       (* the recovered pixel -> pixel' part agrees with the labels ... *)
+       fst (aff_apply T (inject_Z k + (1 # 2)) (inject_Z j + (1 # 2))) == pix_label (nth (Z.to_nat k) ix 0) /\
+       snd (aff_apply T (inject_Z k + (1 # 2)) (inject_Z j + (1 # 2))) == pix_label (nth (Z.to_nat j) iy 0) /\
+       (* ... and the recovered GeoBox maps the pixel centre to the world location of the original pixel *)
+       fst (aff_apply (aff_mul t T) (inject_Z k + (1 # 2)) (inject_Z j + (1 # 2))) ==
+         fst (aff_apply t (inject_Z (nth (Z.to_nat k) ix 0) + (1 # 2)) (inject_Z (nth (Z.to_nat j) iy 0) + (1 # 2))) /\
+       snd (aff_apply (aff_mul t T) (inject_Z k + (1 # 2)) (inject_Z j + (1 # 2))) ==
+         snd (aff_apply t (inject_Z (nth (Z.to_nat k) ix 0) + (1 # 2)) (inject_Z (nth (Z.to_nat j) iy 0) + (1 # 2)))) /\
+    (2 <= zlen ix -> exists px qx, ix = ap px qx (zlen ix) /\ fa T == inject_Z qx /\
+                                   fc T == inject_Z px + (1 # 2) - inject_Z qx / 2) /\
+    (2 <= zlen iy -> exists py qy, iy = ap py qy (zlen iy) /\ fe T == inject_Z qy /\
+                                   ff T == inject_Z py + (1 # 2) - inject_Z qy / 2) /\
+    (zlen ix = 1 -> fa T == 1) /\ (zlen iy = 1 -> fe T == 1).
+Proof.
+  intros Hst Hny Hnx t yd xd c Hname Hclean Hw Hh Hiy Hix Ly Lx.
+  rewrite (wrap_xr_rot tol g nt nb nd name user Hst) in Hw. injection Hw as <-.
+  fold t yd xd in Hh.
+  set (ccn := crs_coord_of name (g_crs g) None (Some t)) in *.
+  assert (Hne : yd <> xd).
+  { subst yd xd. destruct (crs_dims_cases (g_crs g)) as [E|E]; rewrite E; discriminate. }
+  pose proof (wrapped_georef yd xd pix_label pix_label [("units", VOther)] [("units", VOther)]
+                (Some t) (Some t) ccn (g_ny g) (g_nx g) nt nb name (wrap_attrs nd user)
+                (crs_dims_pair (g_crs g)) Hname (clean_wrap_attrs nd user Hclean) Hny Hnx
+                (crs_coord_of_ok name (g_crs g) None (Some t))) as G0.
+  destruct (georef_history _ _ _ _ _ _ _ _ _ _ Hne h _ _ _ _ G0 Hh) as (iy' & ix' & A1 & A2 & G).
+  rewrite Hiy in A1; injection A1 as <-. rewrite Hix in A2; injection A2 as <-.
+  destruct (ap_of_history yd (g_ny g) h iy Hny Hiy) as (py & qy & my & Hmy & -> & Ry).
+  destruct (ap_of_history xd (g_nx g) h ix Hnx Hix) as (px & qx & mx & Hmx & -> & Rx).
+  rewrite !zlen_ap in * by auto.
+  assert (Hgcp : match ccn with Some p => extract_gcps (snd p) | None => None end = None).
+  { subst ccn. destruct name, (g_crs g); reflexivity. }
+  assert (Hcrs : match ccn with
+                 | Some p => extract_crs (snd p)
+                 | None => hd_error (attr_crs_candidates [("units", VOther)] ++ attr_crs_candidates [("units", VOther)])
+                 end = c).
+  { subst ccn c. destruct name, (g_crs g); reflexivity. }
+  destruct (locate_georef pix_label pix_label 0 1 0 1 pix_label_spec pix_label_spec repaired tol yd xd _ _
+              (Some t) (Some t) name ccn px qx mx py qy my x G Lx Ly) as (T & E & P1 & P2 & P3 & P4 & P5 & P6 & P7).
+  { right. rewrite Hgcp. simpl. eexists; reflexivity. }
+  rewrite Hgcp, Hcrs in E. simpl in E.
+  exists T. split; [exact E|]. split; [exact P1|]. split; [exact P2|].
+  split.
+  { eexists _, _. split; [apply (gr_cy _ _ _ _ _ _ _ _ _ _ _ _ _ G)|].
+    split; [apply (gr_cx _ _ _ _ _ _ _ _ _ _ _ _ _ G)|]. repeat split; reflexivity. }
+  split.
+  { intros j k Hj Hk. rewrite !nth_ap by auto.
+    destruct (P3 j k Hj Hk) as (Q1 & Q2).
+    split; [exact Q1|]. split; [exact Q2|].
+    destruct (aff_mul_apply t T (inject_Z k + (1 # 2)) (inject_Z j + (1 # 2))) as (M1 & M2).
+    rewrite M1, M2.
+    apply aff_apply_compat; [rewrite Q1 | rewrite Q2]; reflexivity. }
+  split.
+  { intros H. exists px, qx. split; auto. destruct (P4 H) as (R1 & R2). split.
+    - rewrite R1. ring.
+    - rewrite R2. field. }
+  split.
+  { intros H. exists py, qy. split; auto. destruct (P5 H) as (R1 & R2). split.
+    - rewrite R1. ring.
+    - rewrite R2. field. }
+  split.
+  { intros H. destruct (P6 H) as (r & Fr & Er). rewrite Hgcp in Fr. simpl in Fr. injection Fr as <-. exact Er. }
+  { intros H. destruct (P7 H) as (r & Fr & Er). rewrite Hgcp in Fr. simpl in Fr. injection Fr as <-. exact Er. }
+Qed.
+
+(** GCP based GeoBox: pixel-space labels, GCPs stored in the pixel frame of the wrapped GeoBox *)
+Lemma history_gcp tol ny nx a pts crs ai nt nb nd n user h x0 x iy ix :
+  aff_inv a = Some ai -> 0 <= ny -> 0 <= nx ->
+  let yd := fst (crs_dims (Some crs)) in
+  let xd := snd (crs_dims (Some crs)) in
+  name_ok (Some n) yd xd -> clean_attrs user ->
+  wrap_xr tol (AGcp ny nx a pts (Some crs)) nt nb nd (Some n) user = Ok x0 ->
+  run_history x0 h = Ok x ->
+  axis_idx yd (iota ny) h = Ok iy -> axis_idx xd (iota nx) h = Ok ix ->
+  1 <= zlen iy -> 1 <= zlen ix ->
+  exists T,
+    locate_geo_info repaired tol x =
+      Ok (GeoState (Some (yd, xd)) (Some crs) (Some T)
+                   (Some (AGcp (zlen iy) (zlen ix) T (gcps_of ai pts) (Some crs)))) /\
+    fb T == 0 /\ fd T == 0 /\
+    (forall j k, 0 <= j < zlen iy -> 0 <= k < zlen ix ->
+       fst (aff_apply T (inject_Z k + (1 # 2)) (inject_Z j + (1 # 2))) == inject_Z (nth (Z.to_nat k) ix 0) + (1 # 2) /\
+       snd (aff_apply T (inject_Z k + (1 # 2)) (inject_Z j + (1 # 2))) == inject_Z (nth (Z.to_nat j) iy 0) + (1 # 2)) /\
+    (2 <= zlen ix -> exists px qx, ix = ap px qx (zlen ix) /\ fa T == inject_Z qx /\
+                                   fc T == inject_Z px + (1 # 2) - inject_Z qx / 2) /\
+    (2 <= zlen iy -> exists py qy, iy = ap py qy (zlen iy) /\ fe T == inject_Z qy /\
+                                   ff T == inject_Z py + (1 # 2) - inject_Z qy / 2) /\
+    (zlen ix = 1 -> fa T == 1) /\ (zlen iy = 1 -> fe T == 1).
+Proof.
+  intros Hi Hny Hnx yd xd Hname Hclean Hw Hh Hiy Hix Ly Lx.
+  rewrite (wrap_xr_gcp tol ny nx a pts (Some crs) ai nt nb nd (Some n) user Hi) in Hw. injection Hw as <-.
+  fold yd xd in Hh.
+  set (ccn := crs_coord_of (Some n) (Some crs) (Some (gcps_of ai pts)) None) in *.
+  assert (Hne : yd <> xd).
+  { subst yd xd. destruct (crs_dims_cases (Some crs)) as [E|E]; rewrite E; discriminate. }
+  pose proof (wrapped_georef yd xd pix_label pix_label [("units", VOther)] [("units", VOther)]
+                None None ccn ny nx nt nb (Some n) (wrap_attrs nd user)
+                (crs_dims_pair (Some crs)) Hname (clean_wrap_attrs nd user Hclean) Hny Hnx
+                (crs_coord_of_ok (Some n) (Some crs) (Some (gcps_of ai pts)) None)) as G0.
+  destruct (georef_history _ _ _ _ _ _ _ _ _ _ Hne h _ _ _ _ G0 Hh) as (iy' & ix' & A1 & A2 & G).
+  rewrite Hiy in A1; injection A1 as <-. rewrite Hix in A2; injection A2 as <-.
+  destruct (ap_of_history yd ny h iy Hny Hiy) as (py & qy & my & Hmy & -> & Ry).
+  destruct (ap_of_history xd nx h ix Hnx Hix) as (px & qx & mx & Hmx & -> & Rx).
+  rewrite !zlen_ap in * by auto.
+  destruct (locate_georef pix_label pix_label 0 1 0 1 pix_label_spec pix_label_spec repaired tol yd xd _ _
+              None None (Some n) ccn px qx mx py qy my x G Lx Ly) as (T & E & P1 & P2 & P3 & P4 & P5 & P6 & P7).
+  { right. simpl. eexists; reflexivity. }
+  simpl in E.
+  exists T. split; [exact E|]. split; [exact P1|]. split; [exact P2|].
+  split.
+  { intros j k Hj Hk. rewrite !nth_ap by auto. apply P3; auto. }
+  split.
+  { intros H. exists px, qx. split; auto. destruct (P4 H) as (R1 & R2). split.
+    - rewrite R1. ring.
+    - rewrite R2. field. }
+  split.
+  { intros H. exists py, qy. split; auto. destruct (P5 H) as (R1 & R2). split.
+    - rewrite R1. ring.
+    - rewrite R2. field. }
+  split.
+  { intros H. destruct (P6 H) as (r & Fr & Er). simpl in Fr. injection Fr as <-. exact Er. }
+  { intros H. destruct (P7 H) as (r & Fr & Er). simpl in Fr. injection Fr as <-. exact Er. }
+Qed.
